@@ -113,6 +113,18 @@ def applyEff (e : GEff) (c : Ctx) (v : AView) : M (Ctx × AView) :=
       let coins ← mkCoins c cn.denom cn.amt
       let c ← c.bankCall .send src d coins
       pure (c, v)
+  -- the same from an ACCOUNT (`ReserveSellingCoin` / `ReservePayingCoin`)
+  | .sendCoins, [.nat u, dst, .coin cn] =>
+    match dstOf dst with
+    | none => c.fail .panic
+    | some d => do
+      let coins ← mkCoins c cn.denom cn.amt
+      let c ← c.bankCall .send (.user u) d coins
+      pure (c, v)
+  -- `distrKeeper.FundCommunityPool(ctx, coins, from)`
+  | .fundPool, [.coins l, .nat u] => do
+    let c ← c.bankCall .pool (.user u) .pool l
+    pure (c, v)
   -- store writes: the KEY the code passes must be the key the model files the record under —
   -- the auction this operation concerns, and the record's own id / bidder / release time.
   -- A write under any other key has no counterpart in the model: the plan does not run.
